@@ -341,7 +341,8 @@ class NaturalBreaksSplitter(PeakSplitter):
         max_i = np.argmax(gofs)
         if gofs[max_i] > threshold[peak_i]:
             yield max_i, 0.0
-            yield len(w) - 1, 0.0
+            # Close the last fragment at the end of the waveform (exclusive index)
+            yield len(w), 0.0
         yield NO_MORE_SPLITS, gofs[max_i]
 
 
